@@ -11,7 +11,7 @@ def main(tier, replay):
     run.bounds = {'non_consuming_moves_per_symbol': 'N_states + 2 (abstract machine)', 'IR blocks per call': '60 * (N_states + 4)', 'chunk': '1 byte / end, any state, any data within Inv'}
     run.assumptions = ['hooks return', 'malloc returns']
     # corpus/cycle/*.nmfu are syntactic non-consuming-cycle candidates: the compiler must reject them; any it accepts must pass the unwinding assertions
-    jobs = l3check.jobs_for(tier, ('c04', 'byte', 'end'), kinds=('example', 'ok', 'verif', 'cycle'))
+    jobs = l3check.jobs_for(tier, ('c04', 'byte', 'end'), kinds=('example', 'ok', 'verif', 'cycle', 'gen'))
     consume(run, l3check.run_jobs(jobs), ('c04-unwind',), PID)
     run.cov['cycle_candidates'] = sorted({j['label'] for j in jobs if '/cycle/' in j['label']})
     return run.finish('Unwinding assertion per (program, config, control state, symbolic byte or End, symbolic data): no feasible path of the emitted C exceeds the block budget '
